@@ -9,7 +9,7 @@ from ..e6_algebra import to_rat, Rat, Poly, NotScalarArithmetic, forward_env
 from ..e2_tables import TableEval
 from ..e3_axes import Interp, Arr, Num, Ax, NoneV, Tup, Gen, Obj, is_top
 from ..scenarios import symbolic_estimator, nonusage, dedup_events
-from ..match import expect_assign, expect_call, canon_equal
+from ..match import equal_resolved, expect_assign, expect_call, canon_equal
 
 PROP = "C10"
 LEVEL = "other"
@@ -509,7 +509,7 @@ def run(pm, ctx):
         acc = [s_ for s_ in ast.walk(w) if isinstance(s_, ast.AugAssign) and norm_src(s_.target) == "validation_gemini"]
         if not acc:
             ctx.unrecognised("C10-f", "compute_val_score: accumulation", "no accumulation into validation_gemini")
-        elif isinstance(acc[0].op, ast.Add) and canon_equal(acc[0].value, "gemini_objective(y_pred, affinity) * len(X_batch)"):
+        elif isinstance(acc[0].op, ast.Add) and equal_resolved(acc[0], acc[0].value, ["gemini_objective(y_pred, affinity) * len(X_batch)", "gemini_objective(clf.predict_proba(X_batch), affinity) * len(X_batch)"]):
             ctx.ok("C10-f", "compute_val_score: block scores weighted by len(block)")
         else:
             ctx.violation("C10-f", su.relpath, "compute_val_score", norm_src(acc[0]), "block scores are not accumulated with weight len(block)", line=acc[0].lineno, site="compute_val_score: accumulation")
